@@ -2,6 +2,7 @@ package cluster
 
 import (
 	"fmt"
+	"sort"
 	"strconv"
 	"strings"
 	"testing"
@@ -11,13 +12,244 @@ import (
 	"verifkit/stat"
 )
 
+// c20TxItems draws a batch around one slot (the cluster client requires that when MULTI/EXEC, which have no key,
+// are in the batch): loose commands and 1-2 MULTI..EXEC blocks.
+func c20TxItems(rt *rapid.T, g *kGen, slot int) (items []kItem) {
+	nItems := rapid.IntRange(1, 4).Draw(rt, "txItems")
+	blocks := 0
+	for k := 0; k < nItems; k++ {
+		if blocks < 2 && (rapid.IntRange(0, 2).Draw(rt, "isBlock") != 0 || (k == nItems-1 && blocks == 0)) {
+			blocks++
+			g.blk++
+			it := kItem{Tx: true, ID: "b" + strconv.Itoa(g.blk)}
+			nm := rapid.IntRange(1, 3).Draw(rt, "members")
+			for m := 0; m < nm; m++ {
+				cm := g.cmd([]string{"kecho", "kset", "kset", "get"}, slot)
+				g.script(&cm, 10)
+				it.Cmds = append(it.Cmds, cm)
+			}
+			items = append(items, it)
+		} else {
+			cm := g.cmd([]string{"kecho", "kset"}, slot)
+			g.script(&cm, 10)
+			items = append(items, kItem{Cmds: []kCmd{cm}})
+		}
+	}
+	return items
+}
+
+// c20CarveLateSlot takes one slot out of the topology the client learns first (nobody serves it then).
+func c20CarveLateSlot(rt *rapid.T, tp *kTopo) (slot int, ok bool) {
+	var cand [][2]int // shard, range index
+	for si, sh := range tp.Shards {
+		for ri := range sh.Ranges {
+			cand = append(cand, [2]int{si, ri})
+		}
+	}
+	if len(cand) == 0 {
+		return 0, false
+	}
+	pick := rapid.SampledFrom(cand).Draw(rt, "lateRange")
+	sh := &tp.Shards[pick[0]]
+	r := sh.Ranges[pick[1]]
+	slot = r[0]
+	switch rapid.IntRange(0, 2).Draw(rt, "latePos") {
+	case 1:
+		slot = r[1]
+	case 2:
+		slot = rapid.IntRange(r[0], r[1]).Draw(rt, "lateIn")
+	}
+	var rest [][2]int
+	rest = append(rest, sh.Ranges[:pick[1]]...)
+	if r[0] <= slot-1 {
+		rest = append(rest, [2]int{r[0], slot - 1})
+	}
+	if slot+1 <= r[1] {
+		rest = append(rest, [2]int{slot + 1, r[1]})
+	}
+	rest = append(rest, sh.Ranges[pick[1]+1:]...)
+	sh.Ranges = rest
+	for _, s := range tp.Shards {
+		if len(s.Ranges) > 0 {
+			return slot, true
+		}
+	}
+	return 0, false // never: the topology had a single one-slot range
+}
+
+// c20Late: a slot nobody serves in the topology the client learned first gets an owner A at a generated instant,
+// and a caller of its own then issues single-slot batches with MULTI..EXEC blocks for it: the first of them finds no
+// connection for the slot, makes the client refresh its topology on the spot and is routed by that answer. What
+// the node named by that answer does with the transaction:
+//
+//	plain       serves it
+//	migrating   the slot is being migrated from A to B: -ASK for the keys that have already moved
+//	stale-view  the slot went to B, but every node except the primaries of A and B missed that (they still announce A):
+//	            A answers -MOVED
+//	move-again  the slot moves on to B while A is working on the first command of the batch: -MOVED for the members
+//	retry       a member is answered TRYAGAIN/LOADING once
+func c20Late(rt *rapid.T, p *kPlan, g *kGen, slot int) (ops []kOp, evs []kEvent) {
+	nSh := len(p.Topo.Shards)
+	a := rapid.IntRange(0, nSh-1).Draw(rt, "lateOwner")
+	b := rapid.IntRange(0, nSh-2).Draw(rt, "lateNext")
+	if b >= a {
+		b++
+	}
+	at := rapid.IntRange(50, 1500).Draw(rt, "lateAt")
+	variant := rapid.SampledFrom([]string{"plain", "migrating", "migrating", "stale-view", "stale-view", "move-again", "move-again", "retry"}).Draw(rt, "lateVariant")
+	first := at + rapid.IntRange(1, 400).Draw(rt, "lateFirstGap")
+	nOps := rapid.IntRange(1, 3).Draw(rt, "lateOps")
+	for i := 0; i < nOps; i++ {
+		op := kOp{GapUs: rapid.IntRange(0, 300).Draw(rt, "gap"), Kind: "multi", Items: c20TxItems(rt, g, slot)}
+		if i == 0 {
+			op.GapUs = first
+		}
+		ops = append(ops, op)
+	}
+	switch variant {
+	case "plain":
+		evs = append(evs, kEvent{AtUs: at, Kind: "move", Slot: slot, Hi: slot, To: a})
+	case "retry":
+		evs = append(evs, kEvent{AtUs: at, Kind: "move", Slot: slot, Hi: slot, To: a})
+		// one member of the first block, made retryable (read-only), fails once with a retryable error
+		for ii := range ops[0].Items {
+			if it := &ops[0].Items[ii]; it.Tx {
+				cm := &it.Cmds[rapid.IntRange(0, len(it.Cmds)-1).Draw(rt, "lateRetryMember")]
+				if cm.Kind == "kset" {
+					cm.Kind = "kecho"
+				}
+				cm.Script = []string{rapid.SampledFrom([]string{"tryagain", "tryagain", "loading"}).Draw(rt, "lateRetryWith")}
+				break
+			}
+		}
+	case "migrating":
+		evs = append(evs, kEvent{AtUs: at, Kind: "move", Slot: slot, Hi: slot, To: a})
+		ev := kEvent{AtUs: at, Kind: "migrate", Slot: slot, To: b, All: rapid.Bool().Draw(rt, "allMoved")}
+		for _, k := range g.keys[slot] {
+			if rapid.IntRange(0, 2).Draw(rt, "keyMoved") != 0 {
+				ev.Moved = append(ev.Moved, k)
+			}
+		}
+		evs = append(evs, ev)
+		switch rapid.IntRange(0, 3).Draw(rt, "migrationEnd") {
+		case 0:
+			evs = append(evs, kEvent{AtUs: first + rapid.IntRange(500, 8000).Draw(rt, "finishAfter"), Kind: "finish", Slot: slot})
+		case 1:
+			evs = append(evs, kEvent{AtUs: first + rapid.IntRange(500, 8000).Draw(rt, "abortAfter"), Kind: "abort", Slot: slot})
+		}
+	case "stale-view":
+		evs = append(evs, kEvent{AtUs: at, Kind: "move", Slot: slot, Hi: slot, To: b})
+		heal := rapid.Bool().Draw(rt, "lateHeal")
+		healAt := first + rapid.IntRange(2000, 60000).Draw(rt, "lateHealAfter")
+		for si, sh := range p.Topo.Shards {
+			for ni, n := range append([]string{sh.Primary}, sh.Replicas...) {
+				if ni == 0 && (si == a || si == b) {
+					continue
+				}
+				evs = append(evs, kEvent{AtUs: at, Kind: "view", Node: n, Slot: slot, Hi: slot, To: a})
+				if heal {
+					evs = append(evs, kEvent{AtUs: healAt, Kind: "heal", Node: n})
+				}
+			}
+		}
+	case "move-again":
+		evs = append(evs, kEvent{AtUs: at, Kind: "move", Slot: slot, Hi: slot, To: a})
+		// the refresh on pick takes one topology latency; A then sleeps the base latency before it reads the batch
+		evs = append(evs, kEvent{AtUs: first + p.Cfg.TopoLatUs + p.Cfg.BaseLatUs/2, Kind: "move", Slot: slot, Hi: slot, To: b})
+	}
+	return ops, evs
+}
+
+// c20Reshard: a resharding from shard A to shard X caught in the middle, all of it unknown to the client: some of A's
+// slots have been handed over (A answers -MOVED X), others are being migrated (A answers -ASK X for the keys that have
+// moved), so that one batch over these slots is redirected to X in both ways at once. Later some migrations complete.
+func c20Reshard(rt *rapid.T, p *kPlan, g *kGen) (hot []int, gen func() []kEvent) {
+	var owned []int
+	for _, s := range g.slots {
+		if p.Topo.ownerOf(s) >= 0 {
+			owned = append(owned, s)
+		}
+	}
+	if len(owned) == 0 || len(p.Topo.Shards) < 2 {
+		return nil, func() []kEvent { return nil }
+	}
+	a := p.Topo.ownerOf(rapid.SampledFrom(owned).Draw(rt, "reshardFrom"))
+	x := rapid.IntRange(0, len(p.Topo.Shards)-2).Draw(rt, "reshardTo")
+	if x >= a {
+		x++
+	}
+	seen := map[int]bool{}
+	for _, s := range g.slots {
+		seen[s] = true
+		if p.Topo.ownerOf(s) == a {
+			hot = append(hot, s)
+		}
+	}
+	want := rapid.IntRange(2, 4).Draw(rt, "reshardSlots")
+	for tries := 0; len(hot) < want && tries < 16; tries++ {
+		r := rapid.SampledFrom(p.Topo.Shards[a].Ranges).Draw(rt, "reshardRange")
+		if s := rapid.IntRange(r[0], r[1]).Draw(rt, "reshardSlot"); !seen[s] {
+			seen[s] = true
+			hot = append(hot, s)
+			g.slots = append(g.slots, s)
+		}
+	}
+	if len(hot) > 4 {
+		hot = hot[:4]
+	}
+	gen = func() (evs []kEvent) {
+		if len(hot) < 2 {
+			return nil
+		}
+		nMoved := rapid.IntRange(1, len(hot)-1).Draw(rt, "reshardDone")
+		for i, s := range hot {
+			at := rapid.IntRange(0, 50).Draw(rt, "reshardAt")
+			if rapid.IntRange(0, 3).Draw(rt, "reshardLater") == 0 {
+				at = rapid.IntRange(50, 2000).Draw(rt, "reshardAtLater")
+			}
+			if i < nMoved {
+				evs = append(evs, kEvent{AtUs: at, Kind: "move", Slot: s, Hi: s, To: x})
+				continue
+			}
+			ev := kEvent{AtUs: at, Kind: "migrate", Slot: s, To: x, All: rapid.IntRange(0, 2).Draw(rt, "allMoved") != 0}
+			for _, k := range g.keys[s] {
+				if rapid.IntRange(0, 2).Draw(rt, "keyMoved") != 0 {
+					ev.Moved = append(ev.Moved, k)
+				}
+			}
+			evs = append(evs, ev)
+			if rapid.IntRange(0, 2).Draw(rt, "reshardFinish") == 0 {
+				evs = append(evs, kEvent{AtUs: at + rapid.IntRange(300, 6000).Draw(rt, "finishAfter"), Kind: "finish", Slot: s})
+			}
+		}
+		return evs
+	}
+	return hot, gen
+}
+
 func genC20Plan(rt *rapid.T) kPlan {
 	var p kPlan
 	p.Topo = genTopo(rt, kGenOpt{Bias: "c20"})
 	p.Cfg = genCfg(rt)
 	p.Cfg.RESP2 = rapid.IntRange(0, 11).Draw(rt, "resp2") == 0
 	g := &kGen{rt: rt}
+	lateSlot, late := 0, false
+	if rapid.IntRange(0, 2).Draw(rt, "late") == 0 {
+		lateSlot, late = c20CarveLateSlot(rt, &p.Topo)
+	}
 	g.slots = genSlots(rt, p.Topo, rapid.IntRange(3, 6).Draw(rt, "nSlots"), false)
+	var hot []int
+	reshardEvents := func() []kEvent { return nil }
+	if rapid.IntRange(0, 4).Draw(rt, "reshard") < 2 {
+		hot, reshardEvents = c20Reshard(rt, &p, g)
+	}
+	// batches of a plan with a resharding concentrate on the slots that are being handed over
+	slotOf := func() int {
+		if len(hot) >= 2 && rapid.IntRange(0, 2).Draw(rt, "hotSlot") != 0 {
+			return rapid.SampledFrom(hot).Draw(rt, "hot")
+		}
+		return g.slot()
+	}
 	nc := rapid.IntRange(1, 4).Draw(rt, "callers")
 	for c := 0; c < nc; c++ {
 		no := rapid.IntRange(1, 4).Draw(rt, "ops")
@@ -27,52 +259,47 @@ func genC20Plan(rt *rapid.T) kPlan {
 			if rapid.IntRange(0, 11).Draw(rt, "longGap") == 0 {
 				gap = rapid.IntRange(100000, 1300000).Draw(rt, "gapLong")
 			}
-			op := kOp{GapUs: gap, Kind: rapid.SampledFrom([]string{"multi", "multi", "multicache", "tx", "tx", "do"}).Draw(rt, "kind")}
+			kinds := []string{"multi", "multi", "multicache", "tx", "tx", "do"}
+			if len(hot) >= 2 {
+				kinds = []string{"multi", "multicache", "multicache", "multicache", "tx", "do"}
+			}
+			op := kOp{GapUs: gap, Kind: rapid.SampledFrom(kinds).Draw(rt, "kind")}
 			switch op.Kind {
 			case "do":
 				op.Items = []kItem{{Cmds: []kCmd{g.cmd([]string{"kecho", "kset"}, g.slot())}}}
 			case "multi":
 				n := rapid.IntRange(2, 7).Draw(rt, "n")
 				for k := 0; k < n; k++ {
-					cm := g.cmd([]string{"kecho", "kecho", "kset", "get"}, g.slot())
+					cm := g.cmd([]string{"kecho", "kecho", "kset", "get"}, slotOf())
 					g.script(&cm, 10)
 					op.Items = append(op.Items, kItem{Cmds: []kCmd{cm}})
 				}
 			case "multicache":
 				n := rapid.IntRange(2, 6).Draw(rt, "n")
 				for k := 0; k < n; k++ {
-					cm := g.cmd([]string{"get"}, g.slot())
+					cm := g.cmd([]string{"get"}, slotOf())
 					g.script(&cm, 12)
 					op.Items = append(op.Items, kItem{Cmds: []kCmd{cm}})
 				}
 			case "tx":
-				// a batch around one slot (the cluster client requires that when MULTI/EXEC, which have no key, are in the batch):
-				// loose commands and 1-2 MULTI..EXEC blocks
 				op.Kind = "multi"
-				slot := g.slot()
-				nItems := rapid.IntRange(1, 4).Draw(rt, "txItems")
-				blocks := 0
-				for k := 0; k < nItems; k++ {
-					if blocks < 2 && (rapid.IntRange(0, 2).Draw(rt, "isBlock") != 0 || (k == nItems-1 && blocks == 0)) {
-						blocks++
-						g.blk++
-						it := kItem{Tx: true, ID: "b" + strconv.Itoa(g.blk)}
-						nm := rapid.IntRange(1, 3).Draw(rt, "members")
-						for m := 0; m < nm; m++ {
-							cm := g.cmd([]string{"kecho", "kset", "kset", "get"}, slot)
-							g.script(&cm, 10)
-							it.Cmds = append(it.Cmds, cm)
-						}
-						op.Items = append(op.Items, it)
-					} else {
-						cm := g.cmd([]string{"kecho", "kset"}, slot)
-						g.script(&cm, 10)
-						op.Items = append(op.Items, kItem{Cmds: []kCmd{cm}})
-					}
-				}
+				op.Items = c20TxItems(rt, g, g.slot())
 			}
-			if queueLabel() == "ring" {
-				// a batch travels as one burst: only its first command may carry latency (see AGENT_NOTES, bubble rules)
+			ops = append(ops, op)
+		}
+		p.Callers = append(p.Callers, ops)
+	}
+	var lateEvents []kEvent
+	if late {
+		var ops []kOp
+		ops, lateEvents = c20Late(rt, &p, g, lateSlot)
+		p.Callers = append(p.Callers, ops)
+	}
+	if queueLabel() == "ring" {
+		// a batch travels as one burst: only its first command may carry latency (see AGENT_NOTES, bubble rules)
+		for ci := range p.Callers {
+			for oi := range p.Callers[ci] {
+				op := &p.Callers[ci][oi]
 				first := true
 				for ii := range op.Items {
 					for k := range op.Items[ii].Cmds {
@@ -83,12 +310,13 @@ func genC20Plan(rt *rapid.T) kPlan {
 					}
 				}
 			}
-			ops = append(ops, op)
 		}
-		p.Callers = append(p.Callers, ops)
 	}
 	var unhealed, kills bool
 	p.Events, unhealed, kills = genEvents(rt, p.Topo, g, []string{"move", "move", "move", "migrate", "migrate", "migrate", "migrate", "migrate", "loop", "kill", "health"}, 5, 3000)
+	p.Events = append(p.Events, reshardEvents()...)
+	p.Events = append(p.Events, lateEvents...)
+	sort.SliceStable(p.Events, func(a, b int) bool { return p.Events[a].AtUs < p.Events[b].AtUs })
 	for ci := range p.Callers {
 		for oi := range p.Callers[ci] {
 			op := &p.Callers[ci][oi]
@@ -172,6 +400,98 @@ func c20Check(c *stat.Collector, rt stat.Fataler, plan kPlan, run kRun) (nt bool
 				if p.Block != nil && plan.Cfg.MaxRedir == 0 && !faulty {
 					if err := r.Results[pi].Error(); err != nil && isRedirectErr(err) {
 						c.Fail(rt, "C20.tx-resent", fmt.Sprintf("%s: member %s of block %s ended with %v although MaxMovedRedirections is unlimited; sends: %s", where, p.Cmd.UID, p.Block.ID, err, describeSends(ss)), plan)
+					}
+				}
+				// the same for every other command of a batch: a -MOVED/-ASK answer is not the reply to the command, the command
+				// has to be sent again where the answer points, unless the redirect budget has run out (an unlimited one cannot).
+				// A limited budget of m counts the rounds of the batch in which something was redirected; a command takes part in
+				// consecutive rounds from the first on, so one whose k-th send (k < m) is its last cannot have been cut off by the budget.
+				if p.Block == nil && len(pos) > 1 && !faulty {
+					if err := r.Results[pi].Error(); err != nil && isRedirectErr(err) && (plan.Cfg.MaxRedir == 0 || len(ss)-1 < plan.Cfg.MaxRedir) {
+						c.Fail(rt, "C20.positional", fmt.Sprintf("%s position %d (%s %v): the batch returned the redirection %v for it after %d send(s) with MaxMovedRedirections=%d (0 = unlimited): the redirected command was not sent again; sends: %s", where, pi, p.Cmd.UID, p.Cmd.argv(), err, len(ss), plan.Cfg.MaxRedir, describeSends(ss)), plan)
+					}
+				}
+			}
+			// one round of a batch = the k-th sends of its commands (a command that is redirected or retried in a round
+			// takes part in the next one): was one node the target of a -MOVED and of an -ASK in the same round?
+			if len(pos) > 1 {
+				type roundTarget struct {
+					k    int
+					addr string
+				}
+				movedTo, askTo, retriedAt := map[roundTarget]bool{}, map[roundTarget]bool{}, map[roundTarget]bool{}
+				for _, p := range pos {
+					if p.Role != "cmd" {
+						continue
+					}
+					ss := obs.Sends[p.Cmd.UID]
+					for k, s := range ss {
+						if k+1 >= len(ss) {
+							break // only answers that were followed by another send
+						}
+						switch kind, addr, _ := isRedirect(s.Eff); kind {
+						case "MOVED":
+							movedTo[roundTarget{k, addr}] = true
+						case "ASK":
+							askTo[roundTarget{k, addr}] = true
+						default:
+							if s.Eff != nil && s.Eff.IsErr() {
+								retriedAt[roundTarget{k, s.R.Server}] = true
+							}
+						}
+					}
+				}
+				for rtg := range askTo {
+					if movedTo[rtg] || retriedAt[rtg] {
+						what := "moved"
+						if !movedTo[rtg] {
+							what = "retried"
+						}
+						if op.Kind == "multicache" {
+							cls["multicache-round-with-"+what+"+ask-to-one-node"] = true
+						} else if !hasTx {
+							cls["multi-round-with-"+what+"+ask-to-one-node"] = true
+						}
+					}
+				}
+			}
+			// a transaction batch for a slot that no topology answer received before the call lists: the client has no
+			// connection for the slot, refreshes its topology when it picks the nodes and picks again
+			if hasTx {
+				slot, sent, listed := -1, false, false
+				for _, p := range pos {
+					if p.Role == "cmd" {
+						slot = p.Cmd.Slot
+						sent = sent || len(obs.Sends[p.Cmd.UID]) > 0
+					}
+				}
+				for _, v := range obs.Views {
+					if v.At < r.StartUs && slot >= 0 && len(v.nodesOf(slot)) > 0 {
+						listed = true
+					}
+				}
+				if slot >= 0 && sent && !listed {
+					cls["tx-refresh-on-pick"] = true
+					for _, p := range pos {
+						if p.Role != "cmd" || p.Block == nil {
+							continue
+						}
+						ss := obs.Sends[p.Cmd.UID]
+						for k, s := range ss {
+							if k+1 >= len(ss) {
+								break
+							}
+							switch kind, _, _ := isRedirect(s.Eff); kind {
+							case "MOVED":
+								cls["tx-refresh-on-pick-then-moved"] = true
+							case "ASK":
+								cls["tx-refresh-on-pick-then-ask"] = true
+							default:
+								if s.Eff != nil && s.Eff.IsErr() {
+									cls["tx-refresh-on-pick-then-retried"] = true
+								}
+							}
+						}
 					}
 				}
 			}
